@@ -17,6 +17,7 @@ import (
 	"io"
 	"net"
 	"reflect"
+	"runtime"
 	"sync"
 	"testing"
 	"time"
@@ -74,6 +75,34 @@ type vh18World struct {
 	mu    sync.Mutex
 	calls []vh18Call
 	nconn int
+	// gated reads (offset bit 61): ReadAt fills the buffer, reports on entered and waits for gate
+	entered chan uint64
+	gate    chan struct{}
+}
+
+// takeRead removes and returns the recorded ReadAt call of conn at offset off.
+func (w *vh18World) takeRead(conn int, off uint64) (vh18Call, bool) {
+	w.mu.Lock()
+	defer w.mu.Unlock()
+	for i, c := range w.calls {
+		if c.conn == conn && c.op == "read" && c.off == off {
+			w.calls = append(w.calls[:i:i], w.calls[i+1:]...)
+			return c, true
+		}
+	}
+	return vh18Call{}, false
+}
+
+func (w *vh18World) countReads(conn int) int {
+	w.mu.Lock()
+	defer w.mu.Unlock()
+	n := 0
+	for _, c := range w.calls {
+		if c.conn == conn && c.op == "read" {
+			n++
+		}
+	}
+	return n
 }
 
 func (w *vh18World) add(c vh18Call) {
@@ -182,6 +211,10 @@ func (f *vh18File) ReadAt(p []byte, offset int64) (int, error) {
 	copy(p, vh01Pattern(w, byte(offset), byte(offset>>8)|1))
 	meant := append(append([]byte(nil), p[:w]...), make([]byte, n-w)...)
 	f.w.add(vh18Call{conn: f.conn, op: "read", data: meant, off: uint64(offset), count: uint32(len(p)), dirty: dirty, lazy: lazy})
+	if uint64(offset)>>61&1 == 1 && f.w.entered != nil {
+		f.w.entered <- uint64(offset)
+		<-f.w.gate
+	}
 	if n < len(p) {
 		return n, io.EOF
 	}
@@ -596,4 +629,123 @@ func TestVerifC18(t *testing.T) {
 	for _, p := range peers {
 		p.c.Close()
 	}
+
+	// (c) pipelined Treads on ONE connection sharing its readBufPool: a read that is still inside its backend
+	// call (gated backend) or still being written to a peer that does not read yet (slow peer) while another
+	// read is received, served and answered.  Each reply must carry the bytes the backend produced for THAT
+	// request, and the buffer handed to the backend must be clean.  One P, so that sync.Pool hands a buffer
+	// that was just put back to the next Get (with several Ps the per-P caches hide a shared buffer by chance).
+	prevProcs := runtime.GOMAXPROCS(1)
+	defer runtime.GOMAXPROCS(prevProcs)
+	w3 := &vh18World{entered: make(chan uint64, 4), gate: make(chan struct{})}
+	srv3 := NewServer(&vh18Attacher{w: w3})
+	ca, cb := net.Pipe()
+	go srv3.Handle(cb, cb)
+	pp := &vh18Peer{c: ca, id: 1, fidN: 10}
+	if rv, ok := pp.call(&tversion{MSize: 1 << 16, Version: "9P2000.L"}).(*rversion); !ok || rv.MSize == 0 {
+		t.Fatalf("version: %v", rv)
+	}
+	if _, ok := pp.call(&tattach{fid: 0, Auth: tauth{Authenticationfid: noFID}}).(*rattach); !ok {
+		t.Fatal("attach failed")
+	}
+	if _, ok := pp.call(&twalk{fid: 0, newFID: 2, Names: []string{"f"}}).(*rwalk); !ok {
+		t.Fatal("walk f failed")
+	}
+	if _, ok := pp.call(&tlopen{fid: 2, Flags: ReadWrite}).(*rlopen); !ok {
+		t.Fatal("open f failed")
+	}
+	w3.take(1, "walk")
+	type pread struct {
+		off uint64
+		tag uint16
+	}
+	seq := uint64(0)
+	mkoff := func(n int, lazy, gated bool) uint64 {
+		seq++
+		off := uint64(n)<<16 | (seq&0xff)<<8 | (seq*37+11)&0xff
+		if lazy {
+			off |= 1 << 62
+		}
+		if gated {
+			off |= 1 << 61
+		}
+		return off
+	}
+	sendRead := func(n int, lazy, gated bool) pread {
+		off := mkoff(n, lazy, gated)
+		return pread{off: off, tag: pp.send(&tread{fid: 2, Offset: off, Count: uint32(n + 10)})}
+	}
+	judge := func(what string, q pread, m message) {
+		c, ok := w3.takeRead(1, q.off)
+		if !ok {
+			panic("pipelined read: backend call not recorded")
+		}
+		rr, ok := m.(*rread)
+		if !ok {
+			panic(fmt.Sprintf("pipelined read answered with %T", m))
+		}
+		vh18Srv(o, "read-handover", 1, []interface{}{[]interface{}{"nonzero", uint64(0)}}, []interface{}{[]interface{}{"nonzero", uint64(c.dirty)}})
+		vh18Srv(o, what, 1, []interface{}{[]interface{}{"data", vh01Bytes{hex.EncodeToString(c.data)}}},
+			[]interface{}{[]interface{}{"data", vh01Bytes{hex.EncodeToString(rr.Data)}}})
+		msgDotLRegistry.put(m)
+	}
+	collect := func(what string, qs ...pread) {
+		for range qs {
+			tg, m := pp.reply()
+			found := false
+			for _, q := range qs {
+				if q.tag == tg {
+					judge(what, q, m)
+					found = true
+				}
+			}
+			if !found {
+				panic(fmt.Sprintf("pipelined read: unexpected tag %d", tg))
+			}
+		}
+	}
+	waitEntered := func() {
+		select {
+		case <-w3.entered:
+		case <-time.After(30 * time.Second):
+			panic("pipelined read: gated ReadAt was not reached")
+		}
+	}
+	prounds := 6
+	if thorough {
+		prounds = 60
+	}
+	sizes := []int{4000, 700, 9000, 33, 20000, 1200}
+	for round := 0; round < prounds; round++ {
+		nx, ny := sizes[round%len(sizes)], sizes[(round+1)%len(sizes)]
+		lazyX, lazyY := round%3 == 1, round%3 == 2
+		// a completed read first: whatever it leaves in the pool is what the next ones get
+		collect("read-warm", sendRead(sizes[(round+2)%len(sizes)], false, false))
+		// gated backend: X is inside ReadAt (buffer filled) while Y is received, served and answered
+		x := sendRead(nx, lazyX, true)
+		waitEntered()
+		y := sendRead(ny, lazyY, false)
+		collect("read-pipelined-inner", y)
+		w3.gate <- struct{}{}
+		collect("read-pipelined-outer", x)
+		// slow peer: both requests are sent and both backend calls have returned before the peer reads a reply
+		x2 := sendRead(nx, lazyY, false)
+		y2 := sendRead(ny, lazyX, false)
+		for dl := time.Now().Add(30 * time.Second); w3.countReads(1) < 2; {
+			if time.Now().After(dl) {
+				panic("pipelined read: second request was not served while the first reply was pending")
+			}
+			time.Sleep(200 * time.Microsecond)
+		}
+		collect("read-pipelined-slowpeer", x2, y2)
+		// three in flight, the gated one in the middle
+		a := sendRead(ny, false, false)
+		g := sendRead(nx, lazyX, true)
+		waitEntered()
+		b := sendRead(ny/2+1, lazyY, false)
+		collect("read-pipelined-three", a, b)
+		w3.gate <- struct{}{}
+		collect("read-pipelined-three", g)
+	}
+	ca.Close()
 }
